@@ -62,15 +62,37 @@ class Sandbox:
                 os.unlink(p)
 
 
+def def_checksums(drv, triples):
+    """definition checksums (Lean model: BLAKE3 of the byte-exact definition JSON) of the hostile stages in their loaded form"""
+    from s1 import hx
+    lines = []
+    for hp, where in triples:
+        cp = os.path.normpath(hp) if hp else hp
+        if where == "workdir":
+            lines.append("cmd=%s wd=%s o:%s:-:x" % (hx(b"echo hi"), hx(cp.encode()), hx(b"ok.txt")))
+        elif where == "output":
+            lines.append("cmd=%s wd=%s o:%s:-:x" % (hx(b"echo hi"), hx(b"."), hx(cp.encode())))
+        else:
+            lines.append("cmd=%s wd=%s i:%s:-:x o:%s:-:x" % (hx(b"echo hi"), hx(b"."), hx(cp.encode()), hx(b"ok.txt")))
+    p = subprocess.run([drv, "stagedef"], input=("\n".join(lines) + "\n").encode(), stdout=subprocess.PIPE, timeout=300)
+    return dict(zip(triples, p.stdout.decode().split()))
+
+
 def hostile_stage_files(sb, R, rng, tier):
-    """stage files naming escaping artifact paths / working dirs: every command must refuse them and touch nothing outside"""
+    """stage files naming escaping artifact paths / working dirs: every command must refuse them and touch nothing outside;
+    also when the file carries the `checksum:` that belongs to exactly this definition (as if dud itself had written it)"""
     viol = []
+    sums = def_checksums(sb.drv, [(hp, where) for hp in HOSTILE_PATHS for where in ("output", "input", "workdir")])
     for hp in HOSTILE_PATHS:
-        for where in ("output", "input", "workdir"):
+        for where in ("output", "input", "workdir", "output+sum", "input+sum", "workdir+sum"):
+            with_sum = where.endswith("+sum")
+            where = where.split("+")[0]
             proj = sb.project()
             before = sb.outside(proj)
             open(os.path.join(proj.root, "ok.txt"), "w").write("ok")
             doc = "command: echo hi\n"
+            if with_sum:
+                doc = "checksum: %s\n" % sums[(hp, where)] + doc
             if where == "workdir":
                 doc += "working-dir: %s\noutputs:\n  ok.txt: {}\n" % json.dumps(hp)
             elif where == "output":
@@ -86,7 +108,9 @@ def hostile_stage_files(sb, R, rng, tier):
                 rc, so, se = proj.dud(cmd, cwd=proj.root)
                 rcs.append((cmd, rc))
             after = sb.outside(proj)
-            R.count("stagefile-%s-%s" % (where, hp), True)
+            R.count("stagefile-%s-%s%s" % (where, hp, "+sum" if with_sum else ""), True)
+            if with_sum:
+                where = where + " (carrying the matching definition checksum)"
             if after != before:
                 ch = [p for p in set(after) | set(before) if after.get(p) != before.get(p)]
                 viol.append(("escape", "stage file with %s %r: entries outside the project changed: %s (exit codes %s)" % (where, hp, ch[:3], rcs)))
@@ -175,6 +199,40 @@ def hostile_manifests(sb, R, rng, tier):
     return viol
 
 
+def symlinked_places(sb, R, rng, tier):
+    """where a committed directory (the artifact itself, or a sub-directory of it) belongs, the workspace holds a symbolic link to an
+    existing directory OUTSIDE the project: checkout must not write through it"""
+    viol = []
+    for where in ("artifact", "subdir", "deep"):
+        for strat in ([], ["--copy"]):
+            proj = sb.project()
+            root = proj.root
+            os.makedirs(os.path.join(root, "data", "sub", "deeper"))
+            open(os.path.join(root, "data", "a.txt"), "w").write("aaa")
+            open(os.path.join(root, "data", "sub", "b.txt"), "w").write("bbb")
+            open(os.path.join(root, "data", "sub", "deeper", "c.txt"), "w").write("ccc")
+            open(os.path.join(root, "s.yaml"), "w").write("outputs:\n  data:\n    is-dir: true\n")
+            proj.dud(["stage", "add", "s.yaml"], cwd=root)
+            rc, so, se = proj.dud(["commit"], cwd=root)
+            outer = os.path.dirname(root)
+            big = os.path.join(outer, "bigdisk")
+            os.makedirs(os.path.join(big, "sub", "deeper"))
+            open(os.path.join(big, "keep.txt"), "w").write("keep")
+            rel = {"artifact": "data", "subdir": "data/sub", "deep": "data/sub/deeper"}[where]
+            shutil.rmtree(os.path.join(root, rel))
+            os.symlink(big, os.path.join(root, rel))
+            before = sb.outside(proj)
+            rc, so, se = proj.dud(["checkout"] + strat, cwd=root)
+            after = sb.outside(proj)
+            R.count("symlinked-%s-%s" % (where, "copy" if strat else "link"), True)
+            if after != before:
+                ch = sorted(p for p in set(after) | set(before) if after.get(p) != before.get(p))
+                viol.append(("symlink-escape", "`dud checkout%s` (exit %d) with a symbolic link to an outside directory where the committed "
+                             "directory %s belongs: entries outside the project changed: %s" % (" --copy" if strat else "", rc, rel, ch[:3])))
+            proj.cleanup()
+    return viol
+
+
 def traced(sb, R, stepper, rng, tier):
     """mutating system calls of ordinary commands stay inside project / cache / config"""
     viol = []
@@ -199,7 +257,7 @@ def main(tier, replay=None):
     R = vlib.Result(PROP, tier)
     R.cov["rule"] = ("hostile inputs: %d escaping stage-file paths x {output, input, working-dir} x {stage add, commit, checkout, checkout --copy, status, run, pull}; "
                      "%d escaping manifest entry paths x {path only, key+path, nested manifest} x {status, checkout, checkout --copy, push, fetch, pull, commit}; "
-                     "a sentinel tree around the project is snapshotted before/after; plus ptrace audit of the paths of all mutating calls of ordinary "
+                     "checkout over a symbolic link to an outside directory where a committed directory belongs; a sentinel tree around the project is snapshotted before/after; plus ptrace audit of the paths of all mutating calls of ordinary "
                      "commands; non-trivial = the path actually escapes lexically" % (len(HOSTILE_PATHS), len(HOSTILE_ENTRY)))
     R.cov["checker_cmd"] = "cd lean && lake build DudModel.Props.C18 && lake env lean <audit file: #print axioms of every theorem>"
     R.cov["trusted_base"] = vlib.TRUSTED_COMMON + ["lexical path resolution; symlinked intermediate directories are outside the model"]
@@ -210,7 +268,7 @@ def main(tier, replay=None):
     sb = Sandbox(dud, drv)
     findings = [f for f in vlib.load_findings() if f.get("property") == PROP]
     try:
-        viol = hostile_stage_files(sb, R, rng, tier) + hostile_manifests(sb, R, rng, tier) + traced(sb, R, stepper, rng, tier)
+        viol = hostile_stage_files(sb, R, rng, tier) + hostile_manifests(sb, R, rng, tier) + symlinked_places(sb, R, rng, tier) + traced(sb, R, stepper, rng, tier)
     finally:
         sb.close()
     unknown = []
